@@ -11,6 +11,7 @@ import (
 	"os"
 	"path/filepath"
 	"strings"
+	"sync"
 	"time"
 
 	"github.com/cuteLittleDevil/go-jt808/attachment"
@@ -165,10 +166,14 @@ func init() {
 			content []byte
 			c       net.Conn
 			ser     int
+			judged  bool // a completed upload whose stored file is compared with what was uploaded
 		}
 		mk := func(k int, name string) *sess {
 			s := &sess{phone: []byte{0x01, 0x36, 0x00, 0x00, 0x00, byte(k)}, name: []byte(name)}
-			s.content = bytes.Repeat([]byte{byte(0xA0 + k)}, 40+k)
+			s.content = bytes.Repeat([]byte{byte(0x80 + k)}, 40+k)
+			for i := range s.content {
+				s.content[i] ^= byte(i) & 0x0f // position-dependent, still owned by one terminal (high nibble and length)
+			}
 			c, err := net.Dial("tcp", addr)
 			if err != nil {
 				die(err)
@@ -222,6 +227,59 @@ func init() {
 		upload(sc, len(sc.content))
 		finish(sc)
 		finish(sd)
+		for _, s := range all {
+			s.judged = true
+		}
+		// 2a. a terminal whose phone number is all zeros (an unprovisioned device): its directory is "000000000000"
+		sz := mk(20, "zero.bin")
+		sz.phone = make([]byte, 6)
+		sz.judged = true
+		all = append(all, sz)
+		announce(sz)
+		upload(sz, len(sz.content))
+		finish(sz)
+		// 2b. a terminal uploads a file again under the same name, shorter this time: what is stored is the second upload
+		s1, s2 := mk(21, "again.bin"), mk(21, "again.bin")
+		s1.content = append(append([]byte{}, s1.content...), bytes.Repeat([]byte{0xEE}, 50)...)
+		s2.judged = true
+		all = append(all, s1, s2)
+		announce(s1)
+		upload(s1, len(s1.content))
+		finish(s1)
+		announce(s2)
+		upload(s2, len(s2.content))
+		finish(s2)
+		// 2c. many sessions end at the same instant (each is saved when its connection ends)
+		{
+			var group []*sess
+			for k := 0; k < 12; k++ {
+				g := mk(30+k, fmt.Sprintf("burst_%d.bin", k%3))
+				g.judged = true
+				group = append(group, g)
+				all = append(all, g)
+				announce(g)
+				upload(g, len(g.content))
+				ctl(g, 0x1212, body1211(g.name, 0, len(g.content)))
+			}
+			time.Sleep(60 * time.Millisecond)
+			fire := make(chan struct{})
+			var wg sync.WaitGroup
+			for _, g := range group {
+				wg.Add(1)
+				go func(g *sess) {
+					defer wg.Done()
+					buf := make([]byte, 4096)
+					g.c.SetReadDeadline(time.Now().Add(30 * time.Millisecond))
+					g.c.Read(buf) // the replies
+					<-fire
+					g.c.Close()
+				}(g)
+			}
+			time.Sleep(50 * time.Millisecond)
+			close(fire)
+			wg.Wait()
+			time.Sleep(150 * time.Millisecond)
+		}
 		// 3. hostile names, partial upload, then the session fails (unsupported command) or the terminal just leaves
 		for k, nm := range []string{"../../evil_part", "../evil_close", "x/../../evil3"} {
 			se := mk(5+k, nm)
@@ -239,7 +297,10 @@ func init() {
 		defer out.close()
 		root := a[0]
 		// every completed upload is stored under its own terminal's directory, with its own bytes
-		for _, s := range all[:4] {
+		for _, s := range all {
+			if !s.judged {
+				continue
+			}
 			got, err := os.ReadFile(filepath.Join(root, string(asciiDigits(s.phone)), string(s.name)))
 			out.put(map[string]any{"name": B(s.name), "phone": B(asciiDigits(s.phone)), "written": [][]B{}, "uploaded": true,
 				"stored": err == nil && bytes.Equal(got, s.content), "len": len(got)})
